@@ -28,6 +28,7 @@ type Violation struct {
 	Oracle string   `json:"oracle"`
 	Msg    string   `json:"msg"`
 	Step   int      `json:"step"`
+	Detail string   `json:"detail,omitempty"` // informative only (may contain text that is not replay-stable)
 }
 
 func (v *Violation) Has(prop string) bool {
@@ -331,9 +332,11 @@ func (e *e1) doOp(op *Op) *Violation {
 	if d.Exists {
 		e.res.Stats.NonTrivial = true
 	}
-	e.logf("#%d %s -> %s   [%s -> %s]", e.step, op, r, d.State(), ifelseS(out.OK, out.Next.State(), "VIOLATION"))
+	e.logf("#%d %s -> %s   [%s -> %s]", e.step, op, resForLog(op, r), d.State(), ifelseS(out.OK, out.Next.State(), "VIOLATION"))
 	if !out.OK {
-		return e.violate(out.Tags, "outcome:"+op.Kind, "step %d %s on %s: %s", e.step, op, d, out.Why)
+		v := e.violate(out.Tags, "outcome:"+op.Kind, "step %d %s on %s: %s", e.step, op, d, out.Why)
+		v.Detail = r.ErrText
+		return v
 	}
 	if out.Mutated {
 		n := out.Next
@@ -459,8 +462,9 @@ func compareEvent(o ObsEvent, x *ExpEvent, base string) (string, []string) {
 	if x.Cas != 0 && o.Cas != x.Cas {
 		return fmt.Sprintf("cas %d, expected %d", o.Cas, x.Cas), []string{base}
 	}
-	if o.Exp != x.Exp {
-		return fmt.Sprintf("expiry %d, expected %d", o.Exp, x.Exp), []string{base}
+	if o.Exp != x.Exp && !(x.Deletion && o.Exp == 0) {
+		// (whether a tombstone keeps an expiry that an xattr write gave it is unspecified)
+		return fmt.Sprintf("expiry %d, expected %d", o.Exp, x.Exp), []string{base, "C14"}
 	}
 	if o.Rev != x.Rev {
 		return fmt.Sprintf("revno %d, expected %d", o.Rev, x.Rev), []string{base, "C17"}
@@ -618,6 +622,8 @@ func (e *e1) doBackfill(op *Op) *Violation {
 	if !f.IsDone() {
 		return e.violate([]string{"C09", "C16"}, "backfill.done", "step %d: dump feed from CAS %d did not finish", e.step, start)
 	}
+	f.Stop() // releases the feed's terminator watcher
+	synctest.Wait()
 	evs := f.Snapshot()
 	e.logf("#%d Backfill(c%d from %d) -> %d events", e.step, op.Coll, start, len(evs))
 	if len(evs) < 2 || evs[0].Opcode != sgbucket.FeedOpBeginBackfill || evs[len(evs)-1].Opcode != sgbucket.FeedOpEndBackfill {
@@ -770,4 +776,14 @@ func (e *e1) doReopen(op *Op) *Violation {
 		}
 	}
 	return nil
+}
+
+// resForLog renders a result for the trace. When an xattr call has several reasons to fail,
+// which one rosmar reports depends on Go map iteration order inside rosmar; the trace only
+// says that it failed, so that traces stay replay-stable.
+func resForLog(op *Op, r Res) string {
+	if r.Err != "" && r.Err != EPanic && (xattrFamilyKinds[op.Kind]) {
+		r.Err = "failed"
+	}
+	return r.String()
 }
